@@ -7,16 +7,16 @@ package main
 // of the exported graph. All judgement is in the graph; this file only searches it.
 
 import (
-	"time"
-	"strconv"
-	"strings"
 	"encoding/json"
 	"flag"
 	"fmt"
 	"os"
 	"sort"
+	"strconv"
+	"strings"
 	"sync"
 	"sync/atomic"
+	"time"
 
 	jdoc "github.com/jsightapi/jsight-schema-go-library/formats/json"
 	"github.com/jsightapi/jsight-schema-go-library/notations/jschema"
@@ -211,11 +211,6 @@ func publicRegexCalls(b []byte) []publicResult {
 	}
 }
 
-type flight struct {
-	t time.Time
-	b []byte
-}
-
 func init() {
 	register("c05graph", func(args []string) int {
 		fs := flag.NewFlagSet("c05graph", flag.ExitOnError)
@@ -251,30 +246,15 @@ func init() {
 		var mu sync.Mutex
 		samples := []string{}
 		noteCount := map[int]int{}
-		// calls in flight, for the watchdog: a call of the code under test that has not returned after hangLimit is reported (the byte
-		// string is the evidence) and ends the run - "fails to terminate" is C07's, and an endless loop would otherwise just look like a slow run
-		var inflight sync.Map
-		var flightID int64
-		const hangLimit = 20 * time.Second
-		go func() {
-			for {
-				time.Sleep(2 * time.Second)
-				inflight.Range(func(k, v interface{}) bool {
-					e := v.(flight)
-					if time.Since(e.t) > hangLimit {
-						w.Write(c05Mismatch{Bytes: bytesToInts(e.b), Want: "returns", WantPos: -1, Got: Outcome{Kind: "timeout", Pos: -1, Msg: fmt.Sprintf("the call has not returned after %s", hangLimit)}, What: "hang"})
-						w.Close()
-						fmt.Fprintf(os.Stderr, "@@HANG %q\n", string(e.b))
-						os.Exit(4)
-					}
-					return true
-				})
-			}
-		}()
+		// a call of the code under test that has not returned after 20 s is reported (the byte string is the evidence) and ends the run:
+		// "fails to terminate" is C07's, and an endless loop would otherwise just look like a slow run
+		hw := newHangWatch(20*time.Second, func(in []byte) {
+			w.Write(c05Mismatch{Bytes: bytesToInts(in), Want: "returns", WantPos: -1, Got: Outcome{Kind: "timeout", Pos: -1, Msg: "the call has not returned after 20 s"}, What: "hang"})
+			w.Close()
+		})
 		judge := func(b []byte) {
-			id := atomic.AddInt64(&flightID, 1)
-			inflight.Store(id, flight{time.Now(), b})
-			defer inflight.Delete(id)
+			id := hw.begin(b)
+			defer hw.end(id)
 			atomic.AddInt64(&tests, 1)
 			t := g.run(g.Init, b)
 			if t < 0 {
